@@ -25,11 +25,11 @@ open Pithos Pithos.Proto Pithos.Integrity
 
 /-- THE SWITCH: which variant of the validator `/repo` contains.
 `locatesNamedStores`: fixes/C39-resolve-named-part-stores.patch is in;  `dashAware`: fixes/C39-one-part-multipart-etag.patch is in.
-Flip the two defaults below to `true` once the patches are committed. (For self-tests against a
-patched scratch copy the environment variable VERIF_C39_VARIANT=named,dash / named / dash overrides them.) -/
+Both are committed in /repo (dfc2e8d, fde8834), hence `true`; `false` describes the code before. (For self-tests against a
+patched scratch copy the environment variable VERIF_C39_VARIANT=named,dash / named / dash / none overrides them; `none` = the code before both repairs.) -/
 structure Variant where
-  locatesNamedStores : Bool := false
-  dashAware : Bool := false
+  locatesNamedStores : Bool := true
+  dashAware : Bool := true
 
 def Variant.direct (v : Variant) : Cfg := ⟨if v.locatesNamedStores then .named else .notFound, v.dashAware⟩
 def Variant.hosted (v : Variant) : Cfg := ⟨if v.locatesNamedStores then .named else .single, v.dashAware⟩
